@@ -259,6 +259,15 @@ func c07main(c *Ctx) {
 		}
 		_ = lateAdds
 		lg := chain[depth-1]
+		// the ancestors may sit at levels that do not admit the record (an application that silences its root and opens
+		// one sub-logger): whose attributes a record inherits has nothing to do with who else would have printed it
+		for d := 0; d < depth-1; d++ {
+			if r.P(30) {
+				chain[d].SetLevel(gen.Pick(r, []slog.Level{slog.OffLevel, slog.ErrorLevel, slog.WarnLevel, slog.PanicLevel}))
+				c.R.Add("ancestors_at_a_level_that_does_not_admit_the_record", 1)
+			}
+		}
+		lg.SetLevel(slog.AlwaysLevel)
 		// one Attrs value (NewAttrs: spare capacity) handed to this logger AND to a sibling that is extended afterwards:
 		// the logger's own attributes are its own copy
 		if r.P(20) && len(own[depth-1]) == 0 {
@@ -290,6 +299,13 @@ func c07main(c *Ctx) {
 			name string
 		}
 		var regs []regKey
+		if nkeys > 0 && r.P(25) {
+			// the logger had OTHER context keys before, which were reset (the context still holds values for them)
+			lg.SetContextKeys("stale-a", ctxKeyT{"stale-b"}, ctxKeyS("stale-c"))
+			lg.ResetContextKeys()
+			ctx = context.WithValue(context.WithValue(ctx, "stale-a", "ctx#stale-a"), ctxKeyT{"stale-b"}, "ctx#stale-b") //nolint:staticcheck
+			c.R.Add("loggers_whose_context_keys_were_reset_and_registered_anew", 1)
+		}
 		for i := 0; i < nkeys; i++ {
 			name := c07key(r.Intn(keyspace))
 			if r.P(30) {
@@ -384,6 +400,15 @@ func c07main(c *Ctx) {
 			args = append(args, c07lazyAttr{k, func() any { return v1 }}, c07lazyAttr{k, func() any { return v2 }})
 			call = append(call, srcKV{key: k, src: v1}, srcKV{key: k, src: v2})
 			c.R.Add("calls_with_two_uncomparable_user_attrs_under_one_key", 1)
+		}
+		// the EMPTY key bound by the logger and given again by the call, a NewAttrs bundle (which carries nil fillers)
+		// between the two: one key, one (the last) value - JSON only, where the empty key has a spelling of its own
+		if f == FJSON && !wide && r.P(8) {
+			lg.SetAttrs(slog.NewAttr("", "own#empty"))
+			own[depth-1] = append(own[depth-1], srcKV{key: "", src: "own#empty"})
+			args = append(args, slog.NewAttrs("zz-bundle", "call#bundle"), slog.NewAttr("", "call#empty"))
+			call = append(call, srcKV{key: "zz-bundle", src: "call#bundle"}, srcKV{key: "", src: "call#empty"})
+			c.R.Add("records_with_the_empty_key_at_two_levels_and_a_bundle_between", 1)
 		}
 		// reference
 		var all []srcKV
